@@ -6,8 +6,11 @@ pub mod c04;
 pub mod c05;
 pub mod c06;
 pub mod c11;
+pub mod c13;
+pub mod c14;
 pub mod hist;
 pub mod pool;
+pub mod sigs;
 pub mod util;
 
 pub fn run(ctx: &Ctx) {
@@ -19,7 +22,12 @@ pub fn run(ctx: &Ctx) {
         "c06" => c06::run_c06(ctx),
         "c07" => c06::run_c07(ctx),
         "c11" => c11::run(ctx),
+        "c13" => c13::run_c13(ctx),
+        "c14" => c14::run(ctx),
+        "c10stub" => c13::run_c10_stub(ctx),
         "hist" => hist::run(ctx),
+        "c09" => sigs::run_c09(ctx),
+        "c10gate" => sigs::run_c10_gate(ctx),
         other => {
             eprintln!("HARNESS-ERROR unknown scenario {other}");
             std::process::exit(2);
